@@ -186,10 +186,10 @@ Qed.
 
 Theorem walk_md_no_panic c cb input : snd (walk_md c cb input) <> Panic.
 Proof.
-  unfold walk_md. pose proof (gen_all_r_no_panic input None). unfold gen_all.
-  destruct (gen_all_r input None) as [ts|e|]; cbn; try discriminate; [|contradiction].
-  pose proof (grow_all_no_panic c false ts).
-  destruct (grow_all c false ts) as [gs|e|]; cbn; try discriminate; [|contradiction].
+  unfold walk_md. cbn zeta. pose proof (gen_all_r_no_panic input None). unfold gen_all.
+  destruct (gen_all_r input None) as [ts|e|]; cbn [snd]; try discriminate; [|contradiction].
+  pose proof (grow_all_no_panic (no_enc c) false ts).
+  destruct (grow_all (no_enc c) false ts) as [gs|e|]; cbn [snd]; try discriminate; [|contradiction].
   apply walk_go_no_panic.
 Qed.
 
